@@ -158,6 +158,7 @@ class World:
         self.on_launch = []       # callbacks(key, job)
         self.msg_log = []         # delivered messages
         self.lost_msgs = []       # (key, message) dropped for good
+        self._job_last_due = {}
 
     # ------------------------------------------------------------------
     def effect(self, kind, detail=''):
@@ -298,15 +299,27 @@ class World:
 
     def _send(self, key, t_send, sev, msg):
         sim = self.sim
-        if sim.flip('msg_drop'):
+        droppable = self.cfg.get('drop_customs', False) or not (
+            msg.startswith('msg '))
+        if droppable and sim.flip('msg_drop'):
             self.lost_msgs.append((key, msg))
             sim.log('msg dropped', key, msg)
             return
         delay = 0.0
         if sim.flip('msg_delay'):
             delay = self._dur('msg.delay', (0.5, 2.0, 6.0, 15.0))
+        due = t_send + delay
+        if not self.cfg.get('intra_job_reorder', False):
+            # per-job FIFO: a later message never overtakes an earlier one
+            due = max(due, self._job_last_due.get(key, 0.0))
+            self._job_last_due[key] = due
+        else:
+            if due < self._job_last_due.get(key, 0.0):
+                sim.fault('msg_intra_job_reorder')
+            self._job_last_due[key] = max(due, self._job_last_due.get(key, 0.0))
+        delay = due - t_send
         self.seq += 1
-        self.pending_msgs.append([t_send + delay, self.seq, key, sev, msg, t_send])
+        self.pending_msgs.append([due, self.seq, key, sev, msg, t_send])
         if sim.flip('msg_dup'):
             d2 = delay + self._dur('msg.dupdelay', (0.0, 1.0, 5.0))
             self.seq += 1
@@ -329,6 +342,20 @@ class World:
             pool = list(due)
             while pool:
                 out.append(pool.pop(self.sim.choose(len(pool), 'msg.order')))
+            if not self.cfg.get('intra_job_reorder', False):
+                # keep each job's own messages in their sending order
+                slots = {}
+                for m in out:
+                    slots.setdefault(m[2], []).append(m)
+                for k in slots:
+                    slots[k].sort(key=lambda m: (m[5], m[1]))
+                idx = {k: 0 for k in slots}
+                fixed = []
+                for m in out:
+                    k = m[2]
+                    fixed.append(slots[k][idx[k]])
+                    idx[k] += 1
+                out = fixed
             due = out
         for m in due:
             self.pending_msgs.remove(m)
